@@ -10,6 +10,7 @@ import Manticore.Model.SmbCodecs
 import Manticore.Gen.SmbCommands
 import Manticore.Lemmas.SmbMirror
 import Manticore.Lemmas.SmbStd
+import Manticore.Lemmas.SmbLocality
 namespace Manticore.C04
 open Manticore Manticore.SmbIR Manticore.Gen.SmbCommands
 
@@ -174,6 +175,23 @@ theorem smb_reencode (c : Cmd) (hmem : c ∈ commands) (hm : Mirror c = true) (e
     beq_iff_eq] at h1 h2
   exact mirror_reencode std_lawful std_lawful_fmt c hm h2.1 h1 h2.2 env0 env hc
 
+/-! ## slot locality -/
+
+/-- **C04, slot locality.**  When `slotRange c f = some (lo, hi)` (straight-line marshal program,
+    exactly one statement touches `f`, namely the emission of a fixed-width parameter slot preceded by
+    fixed-width slots only), replacing the value of `f` by anything else for which `Marshal` still
+    succeeds changes no byte of the encoded command outside `[lo, hi)` and not its length.  Any codec
+    table; no consistency hypothesis. -/
+theorem slot_locality (C : Codecs) (c : Cmd) (f : String) (lo hi : Nat) (h : slotRange c f = some (lo, hi))
+    (env : Env) (v : Val) (a b : Bytes) (ha : encodeCmd C c env = .ok a) (hb : encodeCmd C c (env.set f v) = .ok b) :
+    a.length = b.length ∧ ∀ i, (i < lo ∨ hi ≤ i) → a[i]? = b[i]? :=
+  slot_locality_core C c f lo hi h env v a b ha hb
+
+/-- the theorem applies to 206 (command, field) pairs of this tree -/
+theorem slot_ranges_defined :
+    (commands.flatMap (fun c => (c.fields.map (·.1)).filterMap (fun f => slotRange c f))).length = 206 := by
+  decide +kernel
+
 /-! ### non-vacuity: a concrete command and concrete field values satisfy every hypothesis -/
 
 /-- `CloseRequest{FID: 0x1234, LastTimeModified: FILETIME{1, 2}}` -/
@@ -190,5 +208,9 @@ example : consistent Manticore.SmbCodecs.std cmd_CloseRequest closeEnv = true :=
   simp [intsFit, relationsHold, cmd_CloseRequest, closeEnv, Env.get, htup, wordCountOf, andxWords]
 example : encodeCmd Manticore.SmbCodecs.std cmd_CloseRequest closeEnv =
     .ok [5, 0x34, 0x12, 1, 0, 0, 0, 2, 0, 0, 0, 0, 0] := by decide +kernel
+example : Reencodable cmd_CloseRequest = true := by decide
+example : slotRange cmd_CloseRequest "FID" = some (1, 3) := by decide
+example : encodeCmd Manticore.SmbCodecs.std cmd_CloseRequest (closeEnv.set "FID" (.n 0xFFFF)) =
+    .ok [5, 0xFF, 0xFF, 1, 0, 0, 0, 2, 0, 0, 0, 0, 0] := by decide +kernel
 
 end Manticore.C04
